@@ -350,6 +350,8 @@ type Relationship struct {
 	ID     string `xml:"Id,attr"`
 	Type   string `xml:"Type,attr"`
 	Target string `xml:"Target,attr"`
+	// TargetMode 为 "External" 时表示外部目标（如超链接）；重新保存时必须保留
+	TargetMode string `xml:"TargetMode,attr,omitempty"`
 }
 
 // ContentTypes 内容类型
